@@ -312,10 +312,19 @@ package plugins
 //@   results mw, err
 //@   ensures fail_closed: err == nil <==> has(cfg, "apiKey") && holdsString(cfg["apiKey"]) && strval(cfg["apiKey"]) != ""
 //@   ensures no_handler_on_error: err != nil ==> mw == nil
+// C17 "a chain that carries an invalid plugin configuration prevents startup instead of starting with that protection
+// missing": the key the running handler compares with is the non-empty one the factory validated - whatever happens to
+// it between the validation and the handler (captured: an invariant over the variables the closures capture, an
+// obligation where each closure is created). With an empty key a request without the header would pass.
+//@ func init#2$1$1
+//@   props C17
+//@   captured key_is_set: apiKey != ""
 // custom-auth: a request without the exact key is answered 401 and reaches nothing behind the plugin
 //@ func init#2$1$1$1
 //@   props C17
 //@   may_panic
+//@   captured key_is_set: apiKey != ""
+//@   ensures a_request_without_a_key_is_never_admitted: r.Header.vals["X-API-Key"] == "" ==> calls(next) == 0
 //@   requires w != nil && r != nil && r.Header != nil && next != nil && !w.committed
 //@   ensures rejection_stops_the_chain: r.Header.vals["X-API-Key"] != apiKey ==> calls(next) == 0 && w.committed && w.status == 401
 //@   ensures accepted_passes_once: r.Header.vals["X-API-Key"] == apiKey ==> calls(next) == 1
